@@ -95,6 +95,13 @@ class BatchStatistics:
                     self.scalars.add(n.target.id)
                 if n.iter.func.id == "enumerate" and isinstance(n.target, ast.Tuple) and n.target.elts and isinstance(n.target.elts[0], ast.Name):
                     self.scalars.add(n.target.elts[0].id)
+        # the same in comprehensions: [f(A[i, :]) for i in range(n)]
+        for n in ast.walk(self.fi.node):
+            if isinstance(n, ast.comprehension) and isinstance(n.iter, ast.Call) and isinstance(n.iter.func, ast.Name):
+                if n.iter.func.id == "range" and isinstance(n.target, ast.Name):
+                    self.scalars.add(n.target.id)
+                if n.iter.func.id == "enumerate" and isinstance(n.target, ast.Tuple) and n.target.elts and isinstance(n.target.elts[0], ast.Name):
+                    self.scalars.add(n.target.elts[0].id)
 
     # ------------------------------------------------------------ row scope
     def _row_scope(self):
